@@ -1,7 +1,7 @@
 use num::bigint::BigInt;
 use num::traits::FloatConst;
 use num::{
-    BigRational, CheckedAdd, CheckedDiv, CheckedMul, CheckedSub, FromPrimitive, Rational64, Signed,
+    BigRational, CheckedAdd, CheckedMul, CheckedSub, FromPrimitive, Rational64, Signed,
 };
 use num::{Num, Rational32, ToPrimitive};
 use std::cmp::Ordering;
@@ -53,6 +53,23 @@ pub enum Number {
     Float(f64),
     BigInt(Rc<BigInt>),
     Rational(Rational32),
+}
+
+/// A 32 bit rational in 64 bits, where negating or rounding it cannot overflow.
+fn widen(num: &Rational32) -> Rational64 {
+    Rational64::new_raw(*num.numer() as i64, *num.denom() as i64)
+}
+
+/// The result of 64 bit rational arithmetic as a number: an integer, a 32 bit
+/// rational if it fits, and otherwise the nearest double.
+fn narrow(num: Rational64) -> Number {
+    if num.is_integer() {
+        return Number::Fixnum(num.to_integer());
+    }
+    match (num.numer().to_i32(), num.denom().to_i32()) {
+        (Some(numer), Some(denom)) => Rational32::new_raw(numer, denom).into(),
+        _ => (*num.numer() as f64 / *num.denom() as f64).into(),
+    }
 }
 
 impl Number {
@@ -264,7 +281,7 @@ impl Number {
             Number::Fixnum(num) => num.unsigned_abs().into(),
             Number::Float(num) => num.abs().into(),
             Number::BigInt(num) => num.abs().into(),
-            Number::Rational(num) => num.abs().into(),
+            Number::Rational(num) => narrow(widen(num).abs()),
         }
     }
 
@@ -283,7 +300,7 @@ impl Number {
             Number::Fixnum(_) => self.clone(),
             Number::Float(num) => num.round().into(),
             Number::BigInt(_) => self.clone(),
-            Number::Rational(num) => num.round().into(),
+            Number::Rational(num) => narrow(widen(num).round()),
         }
     }
 
@@ -292,7 +309,7 @@ impl Number {
             Number::Fixnum(_) => self.clone(),
             Number::Float(num) => num.floor().into(),
             Number::BigInt(_) => self.clone(),
-            Number::Rational(num) => num.floor().into(),
+            Number::Rational(num) => narrow(widen(num).floor()),
         }
     }
 
@@ -301,7 +318,7 @@ impl Number {
             Number::Fixnum(_) => self.clone(),
             Number::Float(num) => num.ceil().into(),
             Number::BigInt(_) => self.clone(),
-            Number::Rational(num) => num.ceil().into(),
+            Number::Rational(num) => narrow(widen(num).ceil()),
         }
     }
 
@@ -310,7 +327,7 @@ impl Number {
             Number::Fixnum(_) => self.clone(),
             Number::Float(num) => num.trunc().into(),
             Number::BigInt(_) => self.clone(),
-            Number::Rational(num) => num.trunc().into(),
+            Number::Rational(num) => narrow(widen(num).trunc()),
         }
     }
 
@@ -686,6 +703,17 @@ impl Sub for &Number {
     }
 }
 
+/// Divide two 32 bit rationals, or None if the quotient does not fit in one.
+/// The division is carried out in 64 bits: Ratio::checked_div negates numerators
+/// on the way, which overflows for i32::MIN.
+fn div_rational32(lhs: &Rational32, rhs: &Rational32) -> Option<Rational32> {
+    let quotient = widen(lhs) / widen(rhs);
+    match (quotient.numer().to_i32(), quotient.denom().to_i32()) {
+        (Some(numer), Some(denom)) => Some(Rational32::new_raw(numer, denom)),
+        _ => None,
+    }
+}
+
 /// Divide two integers that fit in 32 bits. The fraction is reduced in 64 bit
 /// arithmetic, because normalising the sign of i32::MIN overflows in 32 bits, and
 /// i32::MIN / -1 is an integer that no 32 bit rational can hold.
@@ -728,7 +756,7 @@ impl Div for &Number {
                 Number::Float(rhs) => (*lhs as f64 / rhs).into(),
                 Number::Rational(rhs) => {
                     if lhs.to_i32().is_some() {
-                        match Rational32::from_integer(*lhs as i32).checked_div(rhs) {
+                        match div_rational32(&Rational32::from_integer(*lhs as i32), rhs) {
                             Some(num) => num.into(),
                             None => (*lhs as f64 / rhs.to_f64().unwrap_or(f64::NAN)).into(),
                         }
@@ -755,7 +783,7 @@ impl Div for &Number {
                 Number::Float(rhs) => (lhs.to_f64().unwrap() / *rhs).into(),
                 Number::Rational(rhs) => {
                     if lhs.to_i32().is_some() {
-                        match Rational32::from_integer(lhs.to_i32().unwrap()).checked_div(rhs) {
+                        match div_rational32(&Rational32::from_integer(lhs.to_i32().unwrap()), rhs) {
                             Some(num) => num.into(),
                             None => {
                                 (lhs.to_f64().unwrap() / rhs.to_f64().unwrap_or(f64::NAN)).into()
@@ -775,7 +803,7 @@ impl Div for &Number {
             Number::Rational(lhs) => match rhs {
                 Number::Fixnum(rhs) => {
                     if rhs.to_i32().is_some() {
-                        match lhs.checked_div(&Rational32::from_integer(*rhs as i32)) {
+                        match div_rational32(lhs, &Rational32::from_integer(*rhs as i32)) {
                             Some(num) => num.into(),
                             None => (lhs.to_f64().unwrap_or(f64::MAX) / *rhs as f64).into(),
                         }
@@ -786,7 +814,7 @@ impl Div for &Number {
                 Number::Float(rhs) => (lhs.to_f64().unwrap_or(f64::NAN) / *rhs).into(),
                 Number::BigInt(rhs) => {
                     if rhs.to_i32().is_some() {
-                        match lhs.checked_div(&Rational32::from_integer(rhs.to_i32().unwrap())) {
+                        match div_rational32(lhs, &Rational32::from_integer(rhs.to_i32().unwrap())) {
                             Some(num) => num.into(),
                             None => {
                                 (lhs.to_f64().unwrap_or(f64::MAX) / rhs.to_f64().unwrap()).into()
@@ -796,7 +824,7 @@ impl Div for &Number {
                         (lhs.to_f64().unwrap_or(f64::MAX) / rhs.to_f64().unwrap()).into()
                     }
                 }
-                Number::Rational(rhs) => match lhs.checked_div(rhs) {
+                Number::Rational(rhs) => match div_rational32(lhs, rhs) {
                     Some(num) => num.into(),
                     None => {
                         (lhs.to_f64().unwrap_or(f64::NAN) / rhs.to_f64().unwrap_or(f64::NAN)).into()
